@@ -462,17 +462,45 @@ func HashIsEmpty(hash *SexpHash) bool {
 }
 
 func SetHashKeyOrder(hash *SexpHash, keyOrd Sexp) error {
-	// truncate down to zero, then build back up correctly.
-	hash.KeyOrder = hash.KeyOrder[:0]
-
 	keys, isArr := keyOrd.(*SexpArray)
 	if !isArr {
 		return fmt.Errorf("must have SexpArray for keyOrd, but instead we have: %T with value='%#v'", keyOrd, keyOrd)
 	}
-	for _, key := range keys.Val {
-		hash.KeyOrder = append(hash.KeyOrder, key)
+	// The requested order only arranges the keys the hash really has: a
+	// listed key without an entry is skipped (it would show up in (keys h)
+	// without a value), and an entry that is not listed keeps its place
+	// after the listed ones.
+	old := hash.KeyOrder
+	placed := make([]bool, len(old))
+	order := make([]Sexp, 0, len(old))
+	byCode := make(map[int][]int)
+	for i, have := range old {
+		if code, err := HashExpression(nil, have); err == nil {
+			byCode[code] = append(byCode[code], i)
+		}
 	}
-
+	for _, key := range keys.Val {
+		code, err := HashExpression(nil, key)
+		if err != nil {
+			continue
+		}
+		for _, i := range byCode[code] {
+			if placed[i] {
+				continue
+			}
+			if res, err := hash.Env.Compare(old[i], key); err == nil && res == 0 {
+				placed[i] = true
+				order = append(order, old[i])
+				break
+			}
+		}
+	}
+	for i, have := range old {
+		if !placed[i] {
+			order = append(order, have)
+		}
+	}
+	hash.KeyOrder = order
 	return nil
 }
 
